@@ -709,7 +709,8 @@ def rule_stop(ctx):
     FLIP = {"<": ">", "<=": ">=", ">": "<", ">=": "<=", "==": "==", "!=": "!="}
     # the same tests written as one `if let Criterion::X(v) = self.stopping { if <comparison> { break } }` per criterion
     iflets = []
-    if m is None and cmap is not None:
+    counter = None
+    if m is None:
         body0 = strip(lp[2])
         stmts0 = list(body0.get("stmts") or []) + ([body0["e"]] if body0.get("e") is not None else [])
         for i0, st0 in enumerate(stmts0):
@@ -719,7 +720,17 @@ def rule_stop(ctx):
                 inner = [y for y in walk(s0["then"]) if y.get("k") == "If" and any(z.get("k") == "Break" for z in walk(y["then"]))]
                 if len(inner) == 1:
                     iflets.append((i0, cnd0["pat"], inner[0]))
-    if (m is None and not iflets) or cmap is None:
+    if m is None and iflets and cmap is None:
+        # the number of clusters kept in a counter that every merge decrements (the clusters themselves in a vector indexed by
+        # id): the counter plays the part of `clusters.len()`, its decrement the part of the merge
+        for i0, p_, i_ in iflets:
+            cn = strip(i_["c"])
+            if cn.get("k") == "Binary":
+                for side in (cn["l"], cn["r"]):
+                    sl = peel_refs(side)
+                    if sl.get("k") == "Path" and "local" in sl and any(z.get("k") == "AssignOp" and z["op"] == "-" and local_of(z["l"]) == sl["local"] for z in walk(lp[2])):
+                        counter = sl["local"]
+    if (m is None and not iflets) or (cmap is None and counter is None):
         res.undecided("%s : stop-test" % key, "no match over self.stopping inside the step loop (fail closed)", fn_loc(fn))
         return res.finish(3)
     arms_ = [(arm["pat"], arm["body"], None) for arm in m["arms"]] if m is not None else [(p_, i_["c"], (i0, i_)) for i0, p_, i_ in iflets]
@@ -744,6 +755,8 @@ def rule_stop(ctx):
         def is_qty(x):
             x = peel_refs(x)
             if vname == "NumClusters":
+                if counter is not None and x.get("k") == "Path" and x.get("local") == counter:
+                    return True
                 return x.get("k") == "MethodCall" and x["name"] == "len" and local_of(x["recv"]) == cmap
             return x.get("k") == "Field" and x["name"] == "dissimilarity" and local_of(x["e"]) == step_loc
         if is_qty(e["l"]) and local_of(e["r"]) == bl[0]:
@@ -783,6 +796,8 @@ def rule_stop(ctx):
                 neg = cnd.get("k") == "Unary" and cnd["op"] == "!"
                 brk = (i, neg, s)
     rem = next((i for i, st in enumerate(stmts) if any(z.get("k") == "MethodCall" and z["name"] in ("remove", "insert") and local_of(z["recv"]) == cmap for z in walk(st))), None)
+    if counter is not None:
+        rem = next((i for i, st in enumerate(stmts) if any((z.get("k") == "AssignOp" and z["op"] == "-" and local_of(z["l"]) == counter) or (z.get("k") == "MethodCall" and z["name"] in ("take", "remove", "push", "insert", "swap_remove")) for z in walk(st))), None)
     if m is None and rem is not None and positions:
         late = [(vn, w) for vn, w in sorted(positions.items()) if w[0] > rem]
         if len(positions) < 2:
